@@ -232,9 +232,11 @@ theorem history_is_a_protocol_word (v : List Nat) (reuse : Bool) (m : Nat) (hist
   · subst h3
     cases hp : s.proto <;> simp [hp] at hrel
 
-/-- **The model's tables are the handler's.** Regenerated on every run from http/handler.go,
-server.go (go/ast) and protocol.Of (executed): the message types that start a protocol, the
-response types that end a session, the error branch that invalidates the token, the window of
+/-- **The model's tables are the handler's.** Regenerated on every run — observed by running
+`http.Handler.ServeHTTP` with recording stubs for every message and response type (protocol starts,
+session-ending responses, the error branch that invalidates the token, the requests that are
+decrypted), read from server.go (go/ast) and from protocol.Of (executed): the message types that start a protocol, the
+response types that end a session, the error branch that invalidates the token, the
 encrypted TO2 requests, the request → response dispatch of the four `Respond` methods (the twelve
 request types of `handle_request_type`, each answered by its type + 1 as in `handle_resp`) and
 the protocol of every message type are exactly what `isStart`, `final`, `decrypts`' use in `handle`,
@@ -245,7 +247,7 @@ theorem model_tables_are_the_handlers :
     ((List.range 256).all fun t => final t == Fdo.Gen.Handler.finalResponses.contains t) = true ∧
     Fdo.Gen.Handler.errorInvalidates = true ∧
     ((Fdo.Gen.Handler.respondTable.map (·.2.1)).all fun t =>
-      ((decide (Fdo.Gen.Handler.decryptAbove < t) && decide (t < Fdo.Gen.Handler.decryptBelow)) == (t == 66 || t == 68 || t == 70))) = true ∧
+      (Fdo.Gen.Handler.decryptTypes.contains t == (t == 66 || t == 68 || t == 70))) = true ∧
     (Fdo.Gen.Handler.respondTable.map fun r => (r.2.1, r.2.2.1)) =
       [(10, 11), (12, 13), (20, 21), (22, 23), (30, 31), (32, 33), (60, 61), (62, 63), (64, 65), (66, 67), (68, 69), (70, 71)] ∧
     ((List.range 256).all fun t => match protoOf t with
